@@ -683,11 +683,11 @@ theorem reset_is_needed :
     accepts (it is in `AcceptedEncodings`' answer), that is configured, and whose sidecar opened. -/
 theorem sidecar_header_matches_body (accepted : List Bytes) (configured : Bytes → Bool) (state : Bytes → SideState)
     (etagFails post head : Bool) (status : Nat) (ce : Option Bytes) (body : Served)
-    (h : serveFile false accepted configured state etagFails post head = .served status ce (some body)) :
+    (h : serveFile false true accepted configured state etagFails post head = .served status ce (some body)) :
     ce = body.coding ∧
       (∀ c, body = .sidecar c → c ∈ accepted ∧ configured c = true ∧ state c = .ok) := by
   unfold serveFile at h
-  cases hl : sidecarLoop false configured state etagFails accepted none with
+  cases hl : sidecarLoop false true configured state etagFails accepted none with
   | inr e => rw [hl] at h; cases h
   | inl r =>
     obtain ⟨ce', opened⟩ := r
@@ -699,7 +699,7 @@ theorem sidecar_header_matches_body (accepted : List Bytes) (configured : Bytes 
       · cases h
       · simp only [SideRes.served.injEq] at h
         obtain ⟨_, hce, hb⟩ := h
-        rcases sidecarLoop_spec configured state etagFails accepted none ce' opened hl with ⟨ho, hc⟩ | ⟨c, ho, hc, hm, hcf, hst⟩
+        rcases sidecarLoop_spec true configured state etagFails accepted none ce' opened hl with ⟨ho, hc⟩ | ⟨c, ho, hc, hm, hcf, hst⟩
         · subst ho; subst hc
           cases head
           · simp at hb; subst hb; subst hce
@@ -714,10 +714,10 @@ theorem sidecar_header_matches_body (accepted : List Bytes) (configured : Bytes 
 /-- the same for HEAD: it announces what GET would announce -/
 theorem sidecar_head_like_get (accepted : List Bytes) (configured : Bytes → Bool) (state : Bytes → SideState)
     (etagFails : Bool) (status : Nat) (ce : Option Bytes)
-    (h : serveFile false accepted configured state etagFails false true = .served status ce none) :
-    ∃ body, serveFile false accepted configured state etagFails false false = .served status ce (some body) := by
+    (h : serveFile false true accepted configured state etagFails false true = .served status ce none) :
+    ∃ body, serveFile false true accepted configured state etagFails false false = .served status ce (some body) := by
   unfold serveFile at h ⊢
-  cases hl : sidecarLoop false configured state etagFails accepted none with
+  cases hl : sidecarLoop false true configured state etagFails accepted none with
   | inr e => rw [hl] at h; cases h
   | inl r =>
     obtain ⟨ce', opened⟩ := r
@@ -733,17 +733,50 @@ theorem sidecar_head_like_get (accepted : List Bytes) (configured : Bytes → Bo
     sidecar that `Stat` sees and `Open` refuses leaves `Content-Encoding: gzip` on a response whose body is the
     plain file — which an encode handler in front then leaves alone (`ineligible_response_never_encoded`). -/
 theorem sidecar_header_first_mislabels :
-    serveFile true [vGzip] (fun _ => true) (fun _ => .openRefused) false false false
+    serveFile true true [vGzip] (fun _ => true) (fun _ => .openRefused) false false false
       = .served 200 (some vGzip) (some .plain) ∧
-    serveFile false [vGzip] (fun _ => true) (fun _ => .openRefused) false false false
+    serveFile false true [vGzip] (fun _ => true) (fun _ => .openRefused) false false false
       = .served 200 none (some .plain) := by decide
 
-/-- (the code as it is) an ERROR raised after the sidecar was chosen — 405 for a method other than GET / HEAD, a
-    failing etag file — is returned with the sidecar's `Content-Encoding` still in the header map; whoever writes
-    the error page writes plain bytes under it. The successful paths are `sidecar_header_matches_body`. -/
-theorem sidecar_error_keeps_header :
-    serveFile false [vGzip] (fun _ => true) (fun _ => .ok) false true false = .error 405 (some vGzip) ∧
-    serveFile false [vGzip] (fun _ => true) (fun _ => .ok) true false false = .error 500 (some vGzip) := by decide
+/-- **an error response never carries a sidecar's coding** (commit ce4ac64): whatever error `ServeHTTP` returns
+    from the sidecar loop on — 503 from a failed open, 500 from an unreadable etag file, 405 for a method other than
+    GET / HEAD, before or after a sidecar was chosen — no `Content-Encoding` is left in the header map for whoever
+    writes the error page. -/
+theorem sidecar_error_drops_header (accepted : List Bytes) (configured : Bytes → Bool) (state : Bytes → SideState)
+    (etagFails post head : Bool) (status : Nat) (ce : Option Bytes)
+    (h : serveFile false true accepted configured state etagFails post head = .error status ce) : ce = none := by
+  unfold serveFile at h
+  cases hl : sidecarLoop false true configured state etagFails accepted none with
+  | inr e =>
+    obtain ⟨st, ce'⟩ := e
+    rw [hl] at h
+    simp only [SideRes.error.injEq] at h
+    rw [← h.2]
+    exact sidecarLoop_error configured state etagFails accepted st ce' hl
+  | inl r =>
+    obtain ⟨ce', opened⟩ := r
+    rw [hl] at h
+    simp only at h
+    by_cases hc : (opened.isNone && etagFails) = true
+    · rw [if_pos hc] at h
+      simp only [SideRes.error.injEq] at h
+      rw [← h.2]
+      rcases sidecarLoop_spec true configured state etagFails accepted none ce' opened hl with ⟨_, hce⟩ | ⟨c, ho, _⟩
+      · exact hce
+      · rw [ho] at hc; simp at hc
+    · rw [if_neg hc] at h
+      by_cases hp : post = true
+      · simp only [hp, if_true, SideRes.error.injEq] at h
+        exact h.2.symm
+      · simp [hp] at h
+
+/-- the code of before ce4ac64 (`dropOnError = false`): a 405, or a failing etag file, AFTER the sidecar was chosen
+    was returned with the sidecar's `Content-Encoding` still in the header map — an error page written by
+    `handle_errors` went out as plain bytes labelled gzip -/
+theorem sidecar_error_old_code_fails :
+    serveFile false false [vGzip] (fun _ => true) (fun _ => .ok) false true false = .error 405 (some vGzip) ∧
+    serveFile false false [vGzip] (fun _ => true) (fun _ => .ok) true false false = .error 500 (some vGzip) ∧
+    serveFile false true [vGzip] (fun _ => true) (fun _ => .ok) false true false = .error 405 none := by decide
 
 /-- the source announces the sidecar's coding after the sidecar is open — the `headerFirst = false` the theorems
     above are about (regenerated from fileserver/staticfiles.go) -/
